@@ -72,7 +72,7 @@ fn spec_vlen(n: usize) -> Option<usize> {
     if n <= 127 { Some(1) } else if n <= 16_383 { Some(2) } else if n <= 2_097_151 { Some(3) } else if n <= 268_435_455 { Some(4) } else { None }
 }
 
-//@ id=varint.len-tables props=C15,C02,C08 kind=complete tier=quick
+//@ id=varint.len-tables props=C01,C02,C08,C09,C10,C11,C15 kind=complete tier=quick
 #[kani::proof]
 fn k_len_tables() {
     let n: usize = kani::any();
@@ -109,7 +109,7 @@ impl io::Write for Sink {
     fn flush(&mut self) -> io::Result<()> { Ok(()) }
 }
 
-//@ id=varint.writer props=C15,C02 kind=complete tier=quick unwind=7
+//@ id=varint.writer props=C01,C02,C09,C10,C11,C15 kind=complete tier=quick unwind=7
 #[kani::proof]
 #[kani::unwind(7)]
 fn k_write_var_int() {
